@@ -458,6 +458,10 @@ public:
     {
       return; // silent no-op on absent key
     }
+    if (isExpiredLocked(key))
+    {
+      return; // expired-not-yet-evicted == observably absent: must not be revived
+    }
     startTtlOrCleanup(lock);
 
     cancelTimerLocked(key);
@@ -528,6 +532,10 @@ public:
     if (_expiry.find(key) == _expiry.end())
     {
       return; // already permanent
+    }
+    if (isExpiredLocked(key))
+    {
+      return; // expired-not-yet-evicted == observably absent: must not be revived
     }
 
     cancelTimerLocked(key);
@@ -860,6 +868,15 @@ private:
       range *= ticks;
     }
     return std::chrono::milliseconds(range);
+  }
+
+  /// \brief True iff the key carries an expiry that has already passed (the key
+  /// is still resident only because active eviction has not run yet). Caller
+  /// holds _mutex (shared or unique).
+  bool isExpiredLocked(const std::string &key) const
+  {
+    auto eit = _expiry.find(key);
+    return eit != _expiry.end() && eit->second.expiry <= std::chrono::system_clock::now();
   }
 
   void validateKeyValue(const std::string &key, const std::vector<std::uint8_t> &value) const
